@@ -1,7 +1,6 @@
 (* C04/RangeProofs.v — range types over fixed-width elements; numrange (known finding D16). *)
 Require Import PG.Base.Bytes PG.Base.GoSlice PG.Base.Value PG.C04.Lib PG.C04.Model PG.C04.Spec PG.C04.LibProofs.
 Require Import PG.C04.CalProofs.
-Set Default Timeout 120.
 
 Lemma flags_bits f :
   bit (flags_byte f) 0 = f_empty f /\ bit (flags_byte f) 1 = f_lb_inc f /\ bit (flags_byte f) 2 = f_ub_inc f /\
